@@ -197,6 +197,10 @@ def gen_inject_program(r):
         f = 'n%d' % i
         fields.append(f)
         head.append('%s: %s' % (f, e))
+    if ar >= 2 and all(isinstance(f, int) for f in fields) and r.random() < 0.3:
+      # every column written as colN, in an order that is not the numeric one
+      head = ['col%d: %s' % (i, h.split(': ', 1)[1] if h.startswith('col') else h) for i, h in enumerate(head)]
+      r.shuffle(head)
     sigs[name] = fields
     lines.append('%s(%s)%s :- %s;' % (name, ', '.join(head), ' distinct' if r.random() < 0.12 else '', ', '.join(body)))
     k = r.random()
